@@ -57,8 +57,9 @@ func (m *Model) Apply(t *Txn, ui uint64) {
 	}
 	for _, l := range t.Logs {
 		if !l.Del {
-			l.UI = ui
+			l.UI = ui + l.Fut
 		}
+		l.Fut = 0
 		l = NormLog(l, m.HS, m.Exact)
 		m.Logs[LogKey{l.Name, l.UI}] = l
 	}
@@ -135,6 +136,7 @@ type TxnOpts struct {
 	SymP      float64
 	PeeledP   float64
 	NoLogs    bool // refs only (lets a full compaction end in an empty table)
+	LogFutP   float64 // probability that a new log entry is filed under a later update index than its table's
 }
 
 // GenTxn generates transaction id against the current model state.
@@ -160,6 +162,9 @@ func GenTxn(r *Rng, id int, m *Model, o TxnOpts) *Txn {
 			}
 			g.Old, g.New = old, nw
 			l = g
+		}
+		if o.LogFutP > 0 && r.Chance(o.LogFutP) {
+			l.Fut = 1 + uint64(r.Intn(3))
 		}
 		t.Logs = append(t.Logs, l)
 	}
@@ -243,8 +248,9 @@ func (t *Txn) Materialize(ui uint64) ([]Ref, []Log) {
 	for i, l := range t.Logs {
 		l = l.Clone()
 		if !l.Del {
-			l.UI = ui
+			l.UI = ui + l.Fut
 		}
+		l.Fut = 0
 		logs[i] = l
 	}
 	SortLogs(logs)
